@@ -96,6 +96,18 @@ def run(rep, ctx, tier):
                     "the parameters' maximum degree flows into %s" % fld if ok else
                     "%s is computed without the parameters' maximum degree: the shift is not taken relative to the top of the SRS, "
                     "so the same element can serve a larger bound under another key" % fld, b.span)
+    # R1v on the committer side: a polynomial that declares a bound is refused when the key enforces no bounds at all
+    hb = f.find1("check_degrees_and_bounds", self_adt="kzg10::KZG10", trait="")
+    if hb is None:
+        rep.add("R1v", "kzg10.check_degrees_and_bounds:anchor", False, "KZG10::check_degrees_and_bounds not found (fail closed)", None)
+    else:
+        from ..flow import Graph
+        gh = Graph(f, f.closure([hb.id], None), [hb.id], None)
+        ok, detail, where = R1V.check(ctx, None, ("FIELD", "data_structures::LabeledPolynomial", "degree_bound"), (hb.id, 3), g=gh, span=hb.span)
+        rep.add("R1v", "kzg10.check_degrees_and_bounds:bound-needs-enforced-bounds", ok,
+                detail.replace("shifted commitment", "key's list of enforced bounds") if ok else
+                "a polynomial that declares a degree bound is not refused when the key enforces no bounds at all "
+                "(no comparison of the two presences, no refusing unwrap / ok_or of the list under a test of the bound)", where)
     # verifier side
     missing = []
     anchors = {a.key: a for a in ctx.verifier_anchors(missing)}
